@@ -31,6 +31,10 @@ CHECKS = [
      "design_ref": "DESIGN.md 5/C05",
      "level_text": "Generated-input search over long alternations of retract / recover / enter / exit with depth invariants I1-I3 and an exactly-once recovery check. Exploration.",
      "level_note": _PRINTER_NOTE},
+    {"id": "C06", "technique": "property-based testing (Hypothesis) through the plugin object: ordered-map reference model of deferred codes driven by the geometric episode oracle; script emission counting",
+     "design_ref": "DESIGN.md 5/C06",
+     "level_text": "Generated-input search over mode assignments x scripts x programs x ways an episode ends, compared with a reference model after every command. Exploration.",
+     "level_note": "Trusted: reference model in props/c06.py, independent reader vlib/gread.py (merge values), episode oracle of C01, plugin harness stubs (vlib/plugin_harness.py). Programs are mm/absolute with linear moves."},
     {"id": "C14", "technique": "property-based testing (Hypothesis): programs with @-commands, independent model of the action table, reference-printer differential and state-snapshot comparison",
      "design_ref": "DESIGN.md 5/C14",
      "level_text": "Generated-input search over programs x action tables with an enabled/disabled reference model; checks no suppression while disabled, re-synchronisation on a disable inside an episode, decisions after re-enabling against the true position, and inertness of unmatched / streaming @-commands. Exploration.",
